@@ -510,5 +510,11 @@ func enumClientCase(k int) *Case {
 	// two rounds, so that slices returned in the first are exposed to the second
 	h := len(calls) / 2
 	c.Rounds = [][]Call{calls[:h], calls[h:]}
+	// the reply written last in each round is the smallest valid reply (7 bytes)
+	if l, err := clientLayout(c); err == nil {
+		for ri, order := range l.order {
+			c.Rounds[ri][order[len(order)-1]] = Call{Kind: "remove"}
+		}
+	}
 	return c
 }
